@@ -48,13 +48,22 @@ theorem enum_eq_exact (a b : String) :
 
 /-- the six operators are one order read six ways: `!=` negates `=`, `<=` is `<` or `=`, `>` negates `<=` … -/
 theorem operators_consistent (a lit : V) :
-    evalCmp .ne (some a) lit = (!evalCmp .eq (some a) lit && (ord a lit).isSome) ∧
+    evalCmp .ne (some a) lit = (!evalCmp .eq (some a) lit) ∧
     evalCmp .le (some a) lit = (evalCmp .lt (some a) lit || evalCmp .eq (some a) lit) ∧
     evalCmp .ge (some a) lit = (evalCmp .gt (some a) lit || evalCmp .eq (some a) lit) := by
   simp only [evalCmp]
   cases h : ord a lit with
-  | none => simp
+  | none => decide
   | some o => simp [holds_ne, holds_le, holds_ge]
+
+/-- **values of different kinds** (a union leaf holding its other member type): not equal, not ordered -/
+theorem other_kind_only_differs (a lit : V) (h : ord a lit = none) (op : Op) :
+    evalCmp op (some a) lit = decide (op = .ne) := by
+  simp only [evalCmp, h]
+  cases op <;> rfl
+
+example : evalCmp .ne (some (.str "none")) (.int 10) = true ∧ evalCmp .eq (some (.str "none")) (.int 10) = false ∧
+    evalCmp .lt (some (.str "none")) (.int 10) = false ∧ evalCmp .ge (some (.int 5)) (.str "x") = false := by decide
 
 /-- **a path through a list holds iff it holds for some entry** -/
 theorem list_step_iff_exists (n : String) (rest : List String) (cmp : Option (Op × V)) (ss : List S) (ds : List D)
